@@ -123,7 +123,30 @@ def cleanup(dst):
 RESULT_RE = re.compile(r"^Checking harness (\S+?)\.\.\.", re.M)
 
 
+_LOCK_DEPTH = [0]
+
+
 def run(dst, harnesses, timeout_s=600, jobs=8, playback=True):
+    """Kani runs share one cargo target directory (warm dependency build, 1.8 GB): two
+    concurrent `cargo kani` invocations on different scratch copies would overwrite each
+    other's goto binaries (seen: CBMC crashing on a half-written file).  So Kani runs are
+    serialised across processes with a file lock; the Verus parts of concurrent checks still
+    run in parallel."""
+    import fcntl
+    if _LOCK_DEPTH[0] > 0:
+        return _run(dst, harnesses, timeout_s, jobs, playback)
+    os.makedirs(os.path.dirname(TARGET), exist_ok=True)
+    with open(TARGET + ".lock", "w") as lk:
+        fcntl.flock(lk, fcntl.LOCK_EX)
+        _LOCK_DEPTH[0] += 1
+        try:
+            return _run(dst, harnesses, timeout_s, jobs, playback)
+        finally:
+            _LOCK_DEPTH[0] -= 1
+            fcntl.flock(lk, fcntl.LOCK_UN)
+
+
+def _run(dst, harnesses, timeout_s=600, jobs=8, playback=True):
     """run the named harnesses (exact short names) -> {name: result}.
     Kani refuses --concrete-playback together with --jobs, so the parallel
     run is done without it and each FAILED harness is re-run alone with it."""
